@@ -35,6 +35,7 @@ pub enum Op {
     Exec { engine: Engine, pkt: usize, mb: usize },
     ArmVeto,
     ArmAllocFail,
+    ArmMprotectFail,
 }
 
 impl Op {
@@ -52,6 +53,7 @@ impl Op {
             Op::Exec { engine: Engine::Cl, .. } => "execute_cranelift",
             Op::ArmVeto => "fault:verifier_veto",
             Op::ArmAllocFail => "fault:jit_page_alloc_fail",
+            Op::ArmMprotectFail => "fault:jit_mprotect_fail",
         }
     }
     pub fn kind_code(&self) -> u8 {
@@ -68,6 +70,7 @@ impl Op {
             Op::Exec { engine: Engine::Cl, .. } => 9,
             Op::ArmVeto => 10,
             Op::ArmAllocFail => 11,
+            Op::ArmMprotectFail => 12,
         }
     }
     pub fn to_json(&self) -> JsonValue {
@@ -128,6 +131,7 @@ impl Op {
             "execute_cranelift" => Op::Exec { engine: Engine::Cl, pkt: v["pkt"].as_usize()?, mb: v["mb"].as_usize()? },
             "fault:verifier_veto" => Op::ArmVeto,
             "fault:jit_page_alloc_fail" => Op::ArmAllocFail,
+            "fault:jit_mprotect_fail" => Op::ArmMprotectFail,
             _ => return None,
         })
     }
@@ -366,7 +370,7 @@ pub fn op_is_safe(sc: &Scenario, m: Option<&Model>, op: &Op) -> bool {
                 }
             }
         }
-        Op::ArmVeto | Op::ArmAllocFail => m.is_some(),
+        Op::ArmVeto | Op::ArmAllocFail | Op::ArmMprotectFail => m.is_some(),
     }
 }
 
@@ -447,6 +451,7 @@ pub struct Runner<'s> {
     model: Option<Model>,
     pending_veto: bool,
     pending_alloc_fail: bool,
+    pending_mprotect_fail: bool,
     log: Fnv,
     hist: Fnv,
     counters: Counters,
@@ -507,6 +512,7 @@ impl<'s> Runner<'s> {
             model: None,
             pending_veto: false,
             pending_alloc_fail: false,
+            pending_mprotect_fail: false,
             log: Fnv::new(),
             hist: Fnv::new(),
             counters: Counters::default(),
@@ -1274,6 +1280,7 @@ impl<'s> Runner<'s> {
         // faults are consumed by the very next operation, and only by one that can meet them
         let veto = std::mem::take(&mut self.pending_veto);
         let alloc_fail = std::mem::take(&mut self.pending_alloc_fail);
+        let mprotect_fail = std::mem::take(&mut self.pending_mprotect_fail);
         self.log.byte(op.kind_code());
         match op {
             Op::ArmVeto => {
@@ -1284,6 +1291,11 @@ impl<'s> Runner<'s> {
             Op::ArmAllocFail => {
                 self.pending_alloc_fail = true;
                 self.t(|| format!("[{}] fault armed: the next 4096-aligned allocation returns null", at));
+                Ok(())
+            }
+            Op::ArmMprotectFail => {
+                self.pending_mprotect_fail = true;
+                self.t(|| format!("[{}] fault armed: the next mprotect(PROT_EXEC) fails with EACCES", at));
                 Ok(())
             }
             Op::New { pid, doff, eoff } => {
@@ -1520,6 +1532,7 @@ impl<'s> Runner<'s> {
                 let opname: &'static str = op.kind_name();
                 let m = self.model.clone().unwrap();
                 let inject = alloc_fail && engine == Engine::Jit && m.prog.is_some();
+                let inject_mp = mprotect_fail && engine == Engine::Jit && m.prog.is_some();
                 // what does a fresh VM say about compiling this (program, helper table)?
                 let fresh_outcome = match m.prog {
                     None => None,
@@ -1543,15 +1556,22 @@ impl<'s> Runner<'s> {
                 if inject {
                     guard::arm_page_alloc_fail();
                 }
+                let mp_fired_before = guard::MPROTECT_FAIL_FIRED.load(std::sync::atomic::Ordering::Relaxed);
+                if inject_mp {
+                    guard::arm_mprotect_fail();
+                }
                 let o = match engine {
                     Engine::Jit => self.vm.as_mut().unwrap().jit_compile(),
                     _ => self.vm.as_mut().unwrap().cl_compile(),
                 };
                 guard::disarm_page_alloc_fail();
+                guard::disarm_mprotect_fail();
                 let fired = guard::PAGE_ALLOC_FAIL_FIRED.load(std::sync::atomic::Ordering::Relaxed) - fired_before;
                 self.counters.add("fault_jit_page_alloc_fail_fired", fired);
+                let mp_fired = guard::MPROTECT_FAIL_FIRED.load(std::sync::atomic::Ordering::Relaxed) - mp_fired_before;
+                self.counters.add("fault_jit_mprotect_fail_fired", mp_fired);
                 self.log.byte(o.code());
-                self.t(|| format!("[{}] {}() -> {}   [fresh VM: {}{}]", at, opname, o.short(), fresh_outcome.as_ref().map(|f| f.short()).unwrap_or("n/a (no program)".into()), if inject { ", allocation failure injected" } else { "" }));
+                self.t(|| format!("[{}] {}() -> {}   [fresh VM: {}{}]", at, opname, o.short(), fresh_outcome.as_ref().map(|f| f.short()).unwrap_or("n/a (no program)".into()), if inject { ", allocation failure injected" } else if inject_mp { ", mprotect failure injected" } else { "" }));
                 if m.prog.is_none() {
                     if !o.is_err() {
                         return Err(self.c10(format!("no-program-not-error/{}", opname), at, format!("{} with no program loaded returned {}", opname, o.short())));
@@ -1571,6 +1591,22 @@ impl<'s> Runner<'s> {
                     self.note_state(op, 1);
                     self.last_fail_then_exec = true;
                     return self.sweep(at, Some(opname));
+                }
+                // The code pages could not be made executable. An error is fine (judged like the failed
+                // allocation above); so is Ok - if the code then runs: the compile is recorded as
+                // successful and the executions that follow are compared with the fresh VM as always.
+                if inject_mp && mp_fired > 0 && !o.is_err() && !o.is_ok() {
+                    return Err(self.c10(format!("history-dependent-panic-or-crash/{}", opname), at, format!("mprotect(PROT_EXEC) failed and {} -> {}", opname, o.short())));
+                }
+                if inject_mp && mp_fired > 0 && o.is_err() {
+                    self.counters.inc("jit_compile_failed_by_mprotect_fault");
+                    self.mark_compiled_uncertain(engine);
+                    self.note_state(op, 1);
+                    self.last_fail_then_exec = true;
+                    return self.sweep(at, Some(opname));
+                }
+                if inject_mp && mp_fired > 0 && o.is_ok() {
+                    self.counters.inc("jit_compile_ok_although_mprotect_failed");
                 }
                 if !o.same_class(&fo) {
                     if matches!(o, Outcome::Signal(_) | Outcome::Panic(_)) {
@@ -1689,6 +1725,7 @@ impl<'s> Runner<'s> {
 pub fn run_scenario(sc: &Scenario, mode: Prop, want_trace: bool) -> RunResult {
     tls(|t| *t = SimTls::default());
     guard::disarm_page_alloc_fail();
+    guard::disarm_mprotect_fail();
     Runner::new(sc, mode, want_trace).run()
 }
 
